@@ -59,7 +59,7 @@ func c12sCountModel(seg []int, k int) int64 {
 func TestVerifC12SEngine(t *testing.T) {
 	run := verifkit.Env()
 	res := verifkit.NewResult()
-	defer run.Finish(res)
+	defer c12sFinish(run, res)
 	res.Rule = "engine self test: toy programs with known schedule counts / known bugs; a case is one (program, bound) pair"
 	if run.Shard != 0 {
 		res.Evaluations = 1
